@@ -93,10 +93,10 @@ def oracle(kind, power, ids_addressed, inv_to_comps, outcomes, r):
         v.append(("succeeded_plus_failed_plus_excess_equals_request",
                   {"succeeded": res.succeeded_power.as_watts(), "failed": failed_power,
                    "excess": res.excess_power.as_watts(), "request": power}))
-    exp_failed_power = sum(w for cid, w in called.items() if outcomes.get(cid, "ok") != "ok")
+    exp_failed_power = sum(w for cid, w in called.items() if mgr.outcome_fails(outcomes.get(cid, "ok")))
     if not abs(failed_power - exp_failed_power) <= tol:
         v.append(("failed_power_is_sum_of_failed_setpoints", {"reported": failed_power, "expected": exp_failed_power}))
-    exp_succ_power = sum(w for cid, w in called.items() if outcomes.get(cid, "ok") == "ok")
+    exp_succ_power = sum(w for cid, w in called.items() if not mgr.outcome_fails(outcomes.get(cid, "ok")))
     if not abs(res.succeeded_power.as_watts() - exp_succ_power) <= tol:
         v.append(("succeeded_power_is_sum_of_accepted_setpoints",
                   {"reported": res.succeeded_power.as_watts(), "commanded_and_accepted": exp_succ_power, "calls": calls}))
@@ -106,7 +106,7 @@ def oracle(kind, power, ids_addressed, inv_to_comps, outcomes, r):
     exp_failed = set()
     for cid in called:
         addressed |= inv_to_comps[cid]
-        if outcomes.get(cid, "ok") != "ok":
+        if mgr.outcome_fails(outcomes.get(cid, "ok")):
             exp_failed |= inv_to_comps[cid]
     if succeeded | failed != addressed:
         v.append(("succeeded_union_failed_is_addressed", {"succeeded": sorted(succeeded), "failed": sorted(failed),
@@ -173,7 +173,7 @@ def shard_fn(shard) -> Acc:
             acc.evaluations += 1
             acc.traces += 1
             acc.transitions += len(r["calls"]) + 1
-            nfail = sum(1 for o in vec if o != "ok")
+            nfail = sum(1 for o in vec if mgr.outcome_fails(o))
             if nfail and len(r["calls"]) >= 2:
                 acc.nontrivial += 1
             for c in CLAUSES:
@@ -198,16 +198,16 @@ def run(tier: str, seed: int, workers: int):
     meta = {
         "rule": "for each configuration (battery: topologies incl. two inverters per battery, two batteries per inverter, "
         "a full group, exclusion bounds, a requested group that is reported as not working or has not sent data yet; PV: 1-4 inverters with different bounds) and each request from a derived menu "
-        "(both signs, incl. surplus over the inclusion bound), ALL 5^n outcome vectors (ok / OperationOutOfRange / "
-        "ApiClientError / RuntimeError / no reply until timeout) over the set_power calls; each vector is run once on the "
+        "(both signs, incl. surplus over the inclusion bound), ALL 6^n outcome vectors (ok / OperationOutOfRange / "
+        "ApiClientError / RuntimeError / no reply until timeout / success after 5.2 s with a request timeout of 5.5 s) over the set_power calls; each vector is run once on the "
         "real manager over the virtual loop; non-trivial = at least one failing call among >= 2 calls",
         "assumptions": [
             "ComponentPoolStatusTracker replaced by a stub reporting all requested components as working (C16 covers it)",
-            "fake microgrid API client; virtual clock drives the 5 s request timeout",
+            "fake microgrid API client; virtual clock drives the 5.5 s request timeout",
             "'components addressed' = the batteries behind every inverter that received a set_power call",
         ],
         "exhaustive": True,
-        "bounds": {"outcome_vectors": "5^n, n<=3 (quick) / n<=4 (thorough)", "battery_configs": list(battery_configs(tier)),
+        "bounds": {"outcome_vectors": "6^n, n<=3 (quick) / n<=4 (thorough)", "battery_configs": list(battery_configs(tier)),
                    "pv_sets": list(PV_SETS)},
     }
     return acc, meta
